@@ -67,7 +67,11 @@ def main():
         try:
             for f in a.demo_files:
                 rel = os.path.relpath(f, src) if f.startswith(src) else os.path.basename(f)
-                # demo files keep their path relative to the repo when stored as <k>/<path>
+                # demo files keep their path relative to the repo when stored as <k>/<path>; a file
+                # stored flat is put in place by the demo command itself (a stray _test.go in the
+                # repository root would break `go test ./...`)
+                if os.sep not in rel:
+                    continue
                 tgt = os.path.join(wt, rel)
                 os.makedirs(os.path.dirname(tgt), exist_ok=True)
                 shutil.copy(f, tgt)
